@@ -18,10 +18,10 @@ EXPLANATION = (
 
 def run(ctx: Ctx) -> None:
     ctx.assumptions |= {'A2', 'A5'}
-    A.rule_det_unif(ctx, 'GPT')
-    A.rule_det_hash(ctx, ('kfac.gpt_neox.assignment', 'kfac.gpt_neox.mpu'))
-    A.rule_greedy(ctx, 'GPT')
-    A.rule_role_grp(ctx)
+    ctx.do(A.rule_det_unif, 'GPT')
+    ctx.do(A.rule_det_hash, ('kfac.gpt_neox.assignment', 'kfac.gpt_neox.mpu'))
+    ctx.do(A.rule_greedy, 'GPT')
+    ctx.do(A.rule_role_grp)
     only = {f'{A.GA}.__init__'}
-    S.rule_S1_S6(ctx, 'GPT', only=only, s4_only=True)
-    S.rule_S5(ctx, 'GPT')
+    ctx.do(S.rule_S1_S6, 'GPT', only=only, s4_only=True)
+    ctx.do(S.rule_S5, 'GPT')
